@@ -80,6 +80,17 @@ func vpComponentsFollow(env *vpEnv, o ExportOptions, tag string) {
 	}
 }
 
+// vpDrainLockFree: when an update has returned - accepted or refused - the drain lock it takes to
+// keep requests out is free again (otherwise every later request is answered "retry later" and the
+// next update never returns).
+func vpDrainLockFree(env *vpEnv, tag string) {
+	got := env.nfs.policyRWMu.TryLock()
+	vpAssert(got, tag+"-drain-lock-released")
+	if got {
+		env.nfs.policyRWMu.Unlock()
+	}
+}
+
 // vpServes: READ, WRITE and LOOKUP are served with the configuration now in force.
 func vpServes(env *vpEnv, hd, hx uint64, tag string) {
 	t := env.nfs.tuning.Load()
@@ -220,6 +231,7 @@ func VPH_C24_export_update() {
 		vpKnown("K-C24-rejected-update-applies-tuning", true)
 		vpAssert(vpSameConfig(before, after), "rejected-update-leaves-configuration-unchanged")
 		vpComponentsFollow(env, before, "after-rejected")
+		vpDrainLockFree(env, "after-rejected")
 		vpServes(env, hd, hx, "after-rejected")
 		vpKnownClear()
 		return
@@ -261,6 +273,17 @@ func VPH_C24_export_update() {
 	// the caches were really resized / re-timed
 	vpAssert(env.nfs.attrCache.MaxSize() > 0, "attr-cache-capacity-positive")
 	vpComponentsFollow(env, after, "after-update")
+	vpDrainLockFree(env, "after-update")
+	// what GetExportOptions hands out is a copy: editing it in place changes nothing until it is
+	// passed to an update
+	if after.Timeouts != nil {
+		was := env.nfs.tuning.Load().Timeouts.ReadTimeout
+		after.Timeouts.ReadTimeout = 0
+		after.Timeouts.LookupTimeout = -1
+		vpAssert(env.nfs.tuning.Load().Timeouts.ReadTimeout == was, "returned-timeouts-do-not-alias-the-configuration")
+		again := env.nfs.GetExportOptions()
+		vpAssert(vpAnd(again.Timeouts != nil, again.Timeouts.ReadTimeout == was), "configuration-unchanged-by-editing-the-returned-options")
+	}
 	vpKnown("K-C24-zero-fields-not-defaulted", true)
 	vpServes(env, hd, hx, "after-update")
 }
@@ -307,6 +330,15 @@ func VPH_C24_policy_update() {
 	case 3:
 		p.Squash = "Root"
 	}
+	// a TLS section: none, disabled, or enabled with files that cannot be loaded (whether such an
+	// update is accepted or refused, the server keeps serving and can be updated again)
+	switch vpChoose("tls", 0, 2) {
+	case 1:
+		p.TLS = &TLSConfig{Enabled: false}
+	case 2:
+		p.TLS = &TLSConfig{Enabled: true, CertFile: "missing.pem", KeyFile: "missing.pem"}
+		vpReach("tls-section-that-cannot-be-loaded")
+	}
 	err := env.nfs.UpdatePolicyOptions(p)
 	after := env.nfs.GetExportOptions()
 	if err != nil {
@@ -319,4 +351,9 @@ func VPH_C24_policy_update() {
 		vpAssert(after.TransferSize == before.TransferSize, "tuning-untouched")
 	}
 	vpServes(env, hd, hx, "after-policy")
+	vpDrainLockFree(env, "after-policy")
+	// and a further update goes through (nothing was left locked)
+	q := *env.nfs.policy.Load()
+	vpAssert(env.nfs.UpdatePolicyOptions(q) == nil, "a-further-update-is-accepted")
+	vpServes(env, hd, hx, "after-second-policy-update")
 }
